@@ -143,7 +143,9 @@ void h_colorder(void) {
   sp_colorder(&in_A, in_perm_c, &in_opt, &in_AC);
   __CPROVER_assert(0, "canary: sp_colorder returns");
   if (in_A.ncol == CAP) __CPROVER_assert(0, "canary: full capacity reachable");
+#if PATH != 3
   if (in_A.ncol == 0) __CPROVER_assert(0, "canary: empty matrix reachable");
+#endif
 #if PATH == 1
   if (g_calls_post == 0) __CPROVER_assert(0, "canary: refactorization path");
 #else
